@@ -48,7 +48,7 @@ def check(model: Model, run: Run) -> None:
         'C19.R1',
         'memoised decoding: a decode-reachable function that computes with `negotiated` and returns a value kept in class-level '
         'state must make the hit depend on the session as well as on the bytes (or the memo must be provably off)',
-        floor=2,
+        floor=1,
     )
     n_memo = 0
     for q in sorted(dec):
